@@ -60,6 +60,8 @@ R = [
  ("C16f-sparse-mute-taper-wraps-at-array-start", [(VO, "        i_mute = i_mute[i_mute < ns]  # the taper of a run reaching the end of the array is truncated\n",
                                                    "        i_mute = i_mute[(i_mute >= 0) & (i_mute < ns)]  # the taper of a run reaching either end of the array is truncated\n")],
   "saturation counts booleans instead of averaging them and subtracts the taper around the flagged samples only; taps falling outside the array on either side are dropped"),
+ ("C10f-read-sync-threshold-in-sample-units", [(SG, "        level = ((floor + threshold) / s2v).astype(raw.dtype)\n", "        level = (floor + threshold) / s2v  # kept real-valued: integer samples compare exactly with it\n")],
+  "analog sync read as raw columns only, thresholded in sample units against a real-valued level, straight into a preallocated int8 array; split_sync unpacks with little bit order"),
 ]
 
 if __name__ == "__main__":
